@@ -36,8 +36,9 @@ struct Fixture {
     owner: SecretKey,
     perm: Perm,
     base: SignedRegister,
-    other_base: SignedRegister,
     pool: Vec<PoolOp>,
+    /// (name, register) — every one has a base register different from `base`
+    foreign_bases: Vec<(&'static str, SignedRegister)>,
     /// exact memo: a replica of this fixture is determined by the set of pool ops it holds
     verify_memo: std::sync::Mutex<std::collections::HashMap<Vec<u8>, (Option<String>, Result<usize, String>)>>,
 }
@@ -109,7 +110,26 @@ fn fixture(perm: Perm) -> Fixture {
         PoolOp { name: "max-size(1024)/owner", op: RegisterOp::new(addr, d7, &owner), by_owner: true, by_writer: false, sig_valid: true, size_ok: true, right_address: true },
         PoolOp { name: "other-register/owner", op: RegisterOp::new(other_addr, d8, &owner), by_owner: true, by_writer: false, sig_valid: true, size_ok: true, right_address: false },
     ];
-    Fixture { owner, perm, base, other_base, pool, verify_memo: Default::default() }
+    // base registers a replica must refuse: another meta; the same address (owner + meta) with other owner-signed
+    // permissions, empty and carrying an op that is valid under *those* permissions only
+    let relaxed = match perm {
+        Perm::OwnerOnly => Perm::OwnerAndWriter,
+        Perm::OwnerAndWriter => Perm::Anyone,
+        Perm::Anyone => Perm::OwnerOnly,
+    };
+    let relaxed_base = signed_base(&owner, meta, perms_of(relaxed, &writer));
+    let carried = match perm {
+        Perm::OwnerOnly => &pool[1],      // the writer's op: fine for owner+writer, not for owner-only
+        Perm::OwnerAndWriter => &pool[4], // the stranger's op: fine for an open register only
+        Perm::Anyone => &pool[0],
+    };
+    let relaxed_with_op = crafted_register(&relaxed_base, &carried.op);
+    let foreign_bases = vec![
+        ("other-meta", other_base.clone()),
+        ("same-address-other-permissions", relaxed_base),
+        ("same-address-other-permissions-with-op", relaxed_with_op),
+    ];
+    Fixture { owner, perm, base, foreign_bases, pool, verify_memo: Default::default() }
 }
 
 impl Fixture {
@@ -247,7 +267,7 @@ struct Replicas {
 enum Act {
     Deliver { op: usize, name: &'static str, to: usize },
     Merge { from: usize, into: usize, verified: bool },
-    MergeForeignBase { into: usize, verified: bool },
+    MergeForeignBase { which: usize, name: &'static str, into: usize, verified: bool },
     /// a register that carries pool op `op` without it ever having passed add_op (built by hand, as a peer could
     /// send it) is checked with verify() and offered to replica `into` through verified_merge
     MergeCrafted { op: usize, name: &'static str, into: usize },
@@ -279,8 +299,10 @@ impl System for Replicas {
         }
         if self.with_foreign_replica {
             for b in 0..self.regs.len() {
-                v.push(Act::MergeForeignBase { into: b, verified: false });
-                v.push(Act::MergeForeignBase { into: b, verified: true });
+                for (which, (name, _)) in self.fx.foreign_bases.iter().enumerate() {
+                    v.push(Act::MergeForeignBase { which, name, into: b, verified: false });
+                    v.push(Act::MergeForeignBase { which, name, into: b, verified: true });
+                }
             }
         }
         // whole registers carrying an op that must not enter (by the statement, under this permission setting)
@@ -376,17 +398,22 @@ impl System for Replicas {
                 // the target is left as it was for the rest of the search (a violation has been reported if it was not)
                 self.regs[*into] = before;
             }
-            Act::MergeForeignBase { into, verified } => {
+            Act::MergeForeignBase { which, name, into, verified } => {
                 let before = self.regs[*into].clone();
-                let foreign = self.fx.other_base.clone();
+                let foreign = self.fx.foreign_bases[*which].1.clone();
                 let dst = &mut self.regs[*into];
                 let res = catch(|| if *verified { dst.verified_merge(&foreign) } else { dst.merge(&foreign) });
                 match res {
                     Err(pn) => fails.push(Fail::new("no-panic", "merge", format!("merge panicked: {pn}"))),
-                    Ok(Ok(())) => fails.push(Fail::new("different-base", "merge-accepted", "merge with a different base register was accepted".to_string())),
+                    Ok(Ok(())) => {
+                        fails.push(Fail::new("different-base", "merge-accepted", format!("{} with a different base register ({name}) was accepted", if *verified { "verified_merge" } else { "merge" })));
+                        // the rest of the search goes on from the state before
+                        self.regs[*into] = before;
+                    }
                     Ok(Err(_)) => {
                         if self.regs[*into] != before {
-                            fails.push(Fail::new("different-base", "target-changed", "rejected merge with a different base changed the target".to_string()));
+                            fails.push(Fail::new("different-base", "target-changed", format!("rejected merge with a different base ({name}) changed the target")));
+                            self.regs[*into] = before;
                         }
                     }
                 }
@@ -614,8 +641,8 @@ pub fn main(tier: Option<&str>) {
     run.rule(
         "(a) all 2^5 sub-registers of the authorised pool: every pair (verified_merge both ways) and every triple (merge) for two permission \
          settings; every permutation (+ one duplication) of every subset through RegisterCrdt::apply_op. (b) BFS, clone mode: 2(3) real \
-         SignedRegister replicas x 3 permission settings, actions Deliver(op in 10-op pool, r), Merge/verified_merge(r->s), verify/verified_merge of a hand-built register carrying an op that must not enter, merge with a \
-         different base; state key = per replica the set of pool ops held. (c) BFS across the entry limit from replicas pre-filled to \
+         SignedRegister replicas x 3 permission settings, actions Deliver(op in 10-op pool, r), Merge/verified_merge(r->s), verify/verified_merge of a hand-built register carrying an op that must not enter, merge/verified_merge with three \
+         different base registers (another meta; the same address with other owner-signed permissions, empty and carrying an op valid only under those); state key = per replica the set of pool ops held. (c) BFS across the entry limit from replicas pre-filled to \
          1022..1024 entries. Non-trivial = involves at least two distinct operands.",
     );
     run.assume("fixed BLS keys (owner, writer, stranger); 9-op pool; entry contents fixed");
